@@ -10,6 +10,8 @@ package scen
 
 import (
 	"fmt"
+	"net/http"
+	"net/http/httptest"
 	"os"
 	"reflect"
 	"sort"
@@ -17,6 +19,8 @@ import (
 	"time"
 
 	z "github.com/Oudwins/zog"
+	"github.com/Oudwins/zog/parsers/zjson"
+	"github.com/Oudwins/zog/zhttp"
 	"github.com/Oudwins/zog/zverif"
 	"zogverif/mc"
 	"zogverif/zh"
@@ -132,6 +136,20 @@ func c07Events() []c07Event {
 		{"6-level nested struct + slice, failing at a.b.c.d.e.l[1] (path builder grows)", func(c int) {
 			var d c07Deep6
 			c07Collect(c, nil, c07Deep6Schema().Parse(map[string]any{"a": map[string]any{"b": map[string]any{"c": map[string]any{"d": map[string]any{"e": map[string]any{"l": []any{"long-enough", "x"}}}}}}}, &d))
+		}},
+		{"Ptr(Struct).Parse(front end that fails to decode: malformed JSON) [error path of a top-level pointer]", func(c int) {
+			var d *c07Sib
+			c07Collect(c, nil, z.Ptr(z.Struct(z.Schema{"a": z.String(), "b": z.Slice(z.String())})).Parse(zjson.Decode(strings.NewReader(`{"a":`)), &d))
+		}},
+		{"Struct.Parse(front end that fails to decode: malformed form body)", func(c int) {
+			var d c07Sib
+			r := httptest.NewRequest(http.MethodPost, "/", strings.NewReader(`a=%zz`))
+			r.Header.Set("Content-Type", "application/x-www-form-urlencoded")
+			c07Collect(c, nil, z.Struct(z.Schema{"a": z.String(), "b": z.Slice(z.String())}).Parse(zhttp.Request(r), &d))
+		}},
+		{"Ptr(Struct).Parse(JSON null) [front end yields no record]", func(c int) {
+			var d *c07Sib
+			c07Collect(c, nil, z.Ptr(z.Struct(z.Schema{"a": z.String().Required()})).NotNil().Parse(zjson.Decode(strings.NewReader(`null`)), &d))
 		}},
 		{"String.Min(1).Catch.Parse(valid) [catching node, nothing caught]", func(c int) {
 			var d string
@@ -752,7 +770,7 @@ func c07ProbeDevs(tier string) (direct, union int) {
 func init() {
 	Register(&Prop{
 		ID:    "C07",
-		Rule:  "explicit-state BFS over pool states: a state is the canonical content of zog's 7 object pools (all fields of every free object, hidden slice capacity, double-release multiplicity; content-equal multiplicity capped) reached by a history of events (20 calls × {no collect, issues handed back through Collect* / Sanitize*AndCollect}, with the pool answers they received) replayed on cleared pools. Phase B: every probe (13) in every BFS state under LIFO answers, plus bounded deviations in states of depth ≤1 (thorough: all). Phase C: every probe on pre-filled pools holding one witness of every distinct free-object class seen anywhere in the BFS, each Get answered by any of them (bounded deviations). The probe's full canonical observation (every issue field, aliasing, destination, ctx values) must equal the probe on cleared pools. one execution = one (pool content, probe, pool-answer vector); non-trivial = non-empty pool content; distinct = distinct (probe, observation, answer vector). plus " + callsRule,
+		Rule:  "explicit-state BFS over pool states: a state is the canonical content of zog's 7 object pools (all fields of every free object, hidden slice capacity, double-release multiplicity; content-equal multiplicity capped) reached by a history of events (23 calls × {no collect, issues handed back through Collect* / Sanitize*AndCollect}, with the pool answers they received) replayed on cleared pools. Phase B: every probe (13) in every BFS state under LIFO answers, plus bounded deviations in states of depth ≤1 (thorough: all). Phase C: every probe on pre-filled pools holding one witness of every distinct free-object class seen anywhere in the BFS, each Get answered by any of them (bounded deviations). The probe's full canonical observation (every issue field, aliasing, destination, ctx values) must equal the probe on cleared pools. one execution = one (pool content, probe, pool-answer vector); non-trivial = non-empty pool content; distinct = distinct (probe, observation, answer vector). plus " + callsRule,
 		Floor: 20,
 		Bound: func(tier string) string {
 			d, ev, _ := c07Params(tier)
